@@ -200,6 +200,9 @@ Section Vector.
     - eauto.
   Qed.
 
+  Lemma NoDup_app_r {A} (a b : list A) : NoDup (a ++ b) -> NoDup b.
+  Proof. induction a as [|x a IH]; simpl; auto. intros H; inversion H; auto. Qed.
+
   (* no path belongs to two groups *)
   Lemma groups_disjoint (groups : list (list path)) : NoDup (concat groups) ->
     forall i j g h q, nth_error groups i = Some g -> nth_error groups j = Some h -> In q g -> In q h -> i = j.
@@ -217,7 +220,7 @@ Section Vector.
     destruct i as [|i], j as [|j]; simpl in Hi, Hj; auto.
     - injection Hi as ->. exfalso. eapply Hsplit; eauto.
     - injection Hj as ->. exfalso. eapply Hsplit; eauto.
-    - f_equal. eapply IH; eauto. eapply NoDup_app_remove_l; eauto.
+    - f_equal. eapply IH; eauto. eapply NoDup_app_r; eauto.
   Qed.
 
   (* columns: paths[i] is one of groups[i]; rebuilding the vector from dict(zip(paths, row))
